@@ -27,7 +27,7 @@ def run(tier):
                        'enumerative mode: draws and switches are concretised by solver decisions, the body runs untraced']
     T = 300 if tier == 'quick' else 1200
     names = ['h_e_random_%s_%d' % (t, i) for t in ('lib', 'cnfshuffle', 'T') for i in range(NF)]
-    names += ['h_e_explicit_valid', 'h_e_explicit_flips', 'h_e_explicit_vperm', 'h_e_explicit_cperm']
+    names += ['h_e_independent', 'h_e_explicit_valid', 'h_e_explicit_flips', 'h_e_explicit_vperm', 'h_e_explicit_cperm']
     conds = [xengine.Cond('c09', n, T, symbolic=False) for n in names]
     part = xengine.run_conditions('c09.x', conds)
     from cnfgen.transformations.shuffle import Shuffle
